@@ -265,6 +265,7 @@ def check(src, rep):
             rep.ok("R5", "decode_message vs decode_message_payload", "same transition function on message.payload (independent of is_valid); the only difference is the whole-readout decoder for the 'P1' entry and a DataReadout; no payload -> None")
     from sa.cross import include
     include(rep, src, "C15", {"R1"}, "R2", "no exception of a decoder escapes the AutoDecoder (every class a decoder can raise is named in the handler)")
+    include(rep, src, "C08", {"R1"}, "R1", "the Kaifa decoder accepts the genuine Kaifa lists (documented layouts), so such a message is not left to a later, more lenient decoder")
     # ---------------------------------------------------------------- R6: first-octet discrimination (E-CONS)
     try:
         from sa.consir import World, first_octets
